@@ -626,14 +626,17 @@ Proof.
   set (d0 := d0_of w) in *.
   set (reused := (d_buffer d0 =? w_buf w) && negb (w_buf w =? 0) && alloc).
   unfold MDpost, eff_alloc. rewrite Hm.
-  destruct ((w_buf w =? 0) || (w_size w =? 0)) eqn:Ez.
+  destruct ((w_buf w =? 0) || ((w_size w =? 0) && (if cf_zfix c then negb reused else true))) eqn:Ez.
   - (* allocation branch *)
     destruct alloc.
     + assert (Hr : reused = false).
       { destruct reused eqn:R; [|reflexivity]. exfalso. unfold reused in R.
         apply andb_true_iff in R as (R & _). apply andb_true_iff in R as (R1 & R2).
         apply negb_true_iff in R2. rewrite R2 in Ez. cbn [orb] in Ez.
-        unfold zero_reuse in Hzr. rewrite Hm in Hzr. unfold d0, d0_of in R1.
+        apply andb_true_iff in Ez as (Ez & Ezf).
+        assert (Hzf : cf_zfix c = false).
+        { destruct (cf_zfix c); [cbn in Ezf; discriminate|reflexivity]. }
+        unfold zero_reuse in Hzr. rewrite Hm, Hzf in Hzr. unfold d0, d0_of in R1.
         destruct (w_dest w) as [d|].
         - rewrite R1, R2, Ez in Hzr. discriminate.
         - unfold dest_new in R1. cbn [d_buffer] in R1. apply Z.eqb_eq in R1. rewrite <- R1 in R2. discriminate. }
@@ -651,7 +654,7 @@ Proof.
       destruct HdOK as [H0|(b & Hb & Hs & _)]; [left; exact H0|right].
       exists b. cbn [d_buffer d_bufsize d_newbuffer]. split; [exact Hb|]. split; [exact Hs|left; reflexivity].
   - (* the caller's buffer *)
-    apply orb_false_iff in Ez as (Ez1 & Ez2). apply Z.eqb_neq in Ez1, Ez2.
+    apply orb_false_iff in Ez as (Ez1 & Ez2). apply Z.eqb_neq in Ez1.
     destruct (pass_ok_inv c alloc w Hpass Ez1) as (b & Hb & Hl & Hsz). rewrite Hm in Hsz.
     eexists. split; [reflexivity|]. cbn [w_heap w_cur w_buf w_ok w_held set_dest set_out set_heap].
     destruct reused eqn:R.
@@ -665,7 +668,10 @@ Proof.
           split; [congruence|]. split; [exact Hn2|]. right. symmetry. exact Hcur.
         - discriminate. }
       split; [reflexivity|]. split; [reflexivity|]. split; [reflexivity|]. split; [reflexivity|]. discriminate.
-    + assert (Hsz' : 0 < w_size w <= b_size b).
+    + assert (Ez2' : w_size w <> 0).
+      { destruct (w_size w =? 0) eqn:E0; [|apply Z.eqb_neq in E0; exact E0]. exfalso.
+        cbn [andb] in Ez2. destruct (cf_zfix c); discriminate. }
+      assert (Hsz' : 0 < w_size w <= b_size b).
       { destruct Hsz as [Hig|Hsz]; [|lia]. exfalso.
         apply andb_true_iff in Hig as (Hig1 & Hig2). subst alloc.
         specialize (Hreus Hig1). unfold reused in R. rewrite <- Hreus, Z.eqb_refl in R.
@@ -856,8 +862,10 @@ Qed.
 Lemma mem_dest_frame c alloc w : w_ok (fst (mem_dest c alloc w)) = w_ok w.
 Proof.
   unfold mem_dest, mem_dest_tj, mem_dest_ijg.
-  destruct (cf_mgr c); destruct ((w_buf w =? 0) || (w_size w =? 0)); try destruct alloc;
-    try (destruct (h_malloc _ _ _ _)); reflexivity.
+  destruct (cf_mgr c).
+  - destruct ((w_buf w =? 0) || ((w_size w =? 0) && _)); try destruct alloc;
+      try (destruct (h_malloc _ _ _ _)); reflexivity.
+  - destruct ((w_buf w =? 0) || (w_size w =? 0)); try (destruct (h_malloc _ _ _ _)); reflexivity.
 Qed.
 
 Lemma run_call_frame c alloc ops w : w_ok (run_call c alloc ops w) = w_ok w.
@@ -1132,10 +1140,13 @@ Definition hist_aba : list hop := [HCall true [chunk 10]; HFreeBuf; HAlloc 100 t
 Lemma aba_overrun : verdict (run cfg_tj hist_aba) = (false, [NRecycled], Some (BadOverrun 2 100)).
 Proof. vm_compute. reflexivity. Qed.
 
-(* documented reuse ("*jpegSize is ignored") with *jpegSize = 0 *)
+(* documented reuse ("*jpegSize is ignored") with *jpegSize = 0: overrun with the allocation-branch
+   condition before the fix, clean (and outside no hypothesis) with the current one *)
 Definition hist_zero : list hop := [bigcall; HSetSize 0; bigcall].
-Lemma zero_size_reuse_overrun : verdict (run cfg_tj hist_zero) = (false, [NZeroReuse], Some (BadOverrun 3 4096)).
-Proof. vm_compute. reflexivity. Qed.
+Lemma zero_size_reuse_overrun :
+  verdict (run cfg_tj_oldzero hist_zero) = (false, [NZeroReuse], Some (BadOverrun 3 4096)) /\
+  verdict (run cfg_tj hist_zero) = (true, [], None).
+Proof. split; vm_compute; reflexivity. Qed.
 
 (* boundary of the producer assumption: a chunk of exactly BUFSIZE bytes stored directly when
    free_in_buffer = BUFSIZE leaves free_in_buffer = 0 without a dump; the next emit_byte overruns *)
